@@ -69,9 +69,12 @@ static unsigned ptsz[PT_SIZE];
 static unsigned long foreign_frees, tracked_allocs, quarantined, writes_after_free;
 static const char *cur_scen = "-";
 static unsigned pt_slot(void *p) { return (unsigned)(((uintptr_t)p >> 4) * 2654435761u) & (PT_SIZE - 1); }
-static void pt_add(void *p, size_t n)
+/* entries are stored disguised (xor), so that the table itself does not keep a leaked block reachable in LeakSanitizer's eyes */
+#define PT_HIDE(p) ((void *)((uintptr_t)(p) ^ (uintptr_t)0x5a5a5a5a5a5a5a5aULL))
+static void pt_add(void *p_, size_t n)
 {
-	unsigned i = pt_slot(p), spare = PT_SIZE;
+	void *p = PT_HIDE(p_);
+	unsigned i = pt_slot(p_), spare = PT_SIZE;
 	/* an entry for the same address is stale (the application released that block with free() itself, e.g. a returned token): reuse it */
 	for (unsigned k = 0; k < PT_SIZE && pt[i]; k++, i = (i + 1) & (PT_SIZE - 1)) {
 		if (pt[i] == p) { ptsz[i] = (unsigned)n; return; }
@@ -80,9 +83,10 @@ static void pt_add(void *p, size_t n)
 	if (spare != PT_SIZE) i = spare;
 	pt[i] = p; ptsz[i] = (unsigned)n;
 }
-static int pt_del(void *p, size_t *n)
+static int pt_del(void *p_, size_t *n)
 {
-	unsigned i = pt_slot(p);
+	void *p = PT_HIDE(p_);
+	unsigned i = pt_slot(p_);
 	for (unsigned k = 0; k < PT_SIZE && pt[i]; k++, i = (i + 1) & (PT_SIZE - 1))
 		if (pt[i] == p) { pt[i] = (void *)1; *n = ptsz[i]; return 1; }
 	return 0;
